@@ -34,7 +34,7 @@ func (*c09) Assumptions() []string {
 	return []string{
 		"values are built from fresh literals, so no mutable alias of the immutable storage exists before it becomes immutable (the proviso of the property)",
 		"for merely shallow-immutable values the mutable children may legitimately change; only the immutable spine is compared",
-		"error values are opaque to freeze (they compare by identity); containers wrapped in errors are not generated",
+		"error values are opaque to freeze (they compare by identity); containers wrapped in errors are not generated; the two exact inputs that show a frozen value changing through an error payload are probed separately and listed as known findings",
 	}
 }
 
@@ -160,7 +160,30 @@ func c09Subst(r *rand.Rand, op string) string {
 
 const c09ModSrc = "cnt := 0\nexport {data: [1, [2, 3], {k: 4}], cfg: {a: {a: 1}, k: \"v\"}, a: [5, 6], k: 7, next: func() { cnt += 1; return cnt }}\n"
 
+// freeze leaves error values as they are, so a container wrapped in an error stays mutable below a
+// frozen value: exact inputs, listed as known findings
+var c09ErrPayloadProbes = []struct{ name, src string }{
+	{"array-in-error-in-array", `f := freeze([error([1])]); f[0].value[0] = 9; r := f[0].value[0]`},
+	{"map-in-error-in-map", `f := freeze({e: error({a: 1})}); f.e.value.a = 2; r := f.e.value.a`},
+}
+
+func (c *c09) errPayloadProbes(r *fw.Rec) {
+	for _, p := range c09ErrPayloadProbes {
+		eng := runEngine([]byte(p.src), engineOpts{Budget: 100_000})
+		r.Eval()
+		r.Inc("freeze-error-payload-probes")
+		if eng.Phase == "runtime-error" || (eng.Phase == "ok" && eng.Globals["r"] == "i1") {
+			continue // the write failed, or left the frozen value unchanged
+		}
+		r.Violate("freeze:error-payload-mutable:"+p.name, "a write through an error value inside a frozen value succeeded and changed it",
+			map[string]interface{}{"script": p.src, "outcome": eng.Phase + ": " + eng.Err, "value read back": eng.Globals["r"], "value frozen": "1"})
+	}
+}
+
 func (c *c09) RunCase(r *fw.Rec, cs fw.Case) {
+	if cs.Index == 0 {
+		c.errPayloadProbes(r)
+	}
 	rng := cs.Rng("c09")
 	family := cs.Index % 6
 	var init string
